@@ -17,6 +17,10 @@ checks = {
  "C05": dict(text="Per Step the ordered bus trace recorded by the symbolic bus must equal the model's trace as a multiset of (kind,address,value) with equal length, the port log must be equal in order, and no address may be read after it was written; decided for all pre-states of all 1786 encodings.", note="As C01; bus timing is not modelled by the emulator. Trace length <= 8 (max observed reported in evidence).", ref="§5 C05"),
  "C06": dict(text="One Step with a pending request from an arbitrary state against an abstract interrupt controller (NMI; INT in modes 0/1/2 with len(Data) 0..3; refused requests compared with the model of the pinned instruction), handler-notification counts and flip-flop effects for all 1786 encodings, two 3-Step scenarios. One-step refinement from arbitrary states covers histories of any length by induction (paper step).", note="Mode 0 restricted to RST p / CALL nn; empty Data in modes 0/2 and IM outside 0..2 outside the claim; low 7 bits of R not compared on acceptance. Three genuine defects found here were fixed in /repo (known_findings.json).", ref="§5 C06"),
  "C07": dict(text="3-Step lemma from an arbitrary boundary state: accept; EI; RETI (NMI: accept; RETN) is the identity outside the stack hole, for NMI, IM1, IM2 (symbolic vector and I) and IM0 with each RST p and CALL nn. Whole-program transparency follows by induction with C10/C09 (paper step).", note="Handler fixed to the minimal transparent one, assumed present after the acceptance push. Known finding (not fixable under the unedited test suite): mode 0 pushes PC+len(Data); the check confirms the residual obligation (state identical except PC' = PC+len) and prints KNOWN-FINDING.", ref="§5 C07, §6"),
+ "C08": dict(text="CPU.Run itself (closure, defer, go statement, map lookup, context/atomic stubs) is executed symbolically with the real Step: (a) on a scripted memory that answers every opcode fetch with an arbitrary choice among five instruction shapes with arbitrary operands — all programs of <= 3 (thorough 4) such instructions from an arbitrary start state, BreakPoints nil or an arbitrary set of <= 2 addresses; (b) on 12 concrete program skeletons on an address-consistent bus. In both, Run is compared with a twin CPU driven by Step with the stop rule written out (return value, number of Steps, final state, writes/trace).",
+             note="Cancellation never happens here (C13). Longer programs by induction over loop iterations (Run keeps no state between iterations; paper step). Stubs: context.WithCancel/Background, sync/atomic, go statement recorded, errors.New.", ref="§5 C08"),
+ "C13": dict(text="Run executed symbolically under a sequential environment model of cancellation: the cancellation instant is a parameter (before the call, or during instruction 0..k-1), the watcher goroutine is run at the moment its context is cancelled; obligations: Run returns the context's error, no instruction starts after the flag is published, the final state is that of a twin after a whole number of Steps, the watcher has finished on every return path. On the executed interleaving the engine keeps vector clocks (go edge, atomic store->load, cancel->Done, mutex) and every conflicting unordered pair with a non-atomic member is a 'norace' obligation, confirmed natively under go test -race.",
+             note="Outside the claim: wall-clock latency of the Go scheduler ('bounded delay' = at most the instruction in flight completes after the flag is published), runtime goroutine accounting (natively observed only in replay), the context implementation (contract stub), weak-memory behaviours beyond the happens-before model. Programs <= 3 (4) scripted instructions.", ref="§5 C13"),
  "C09": dict(text="One-element lemma for the 16 block encodings from arbitrary states (all BC/B/HL/DE/A/memory/port data) plus complete runs of n = 1..4 (thorough 8) elements against a functional specification of the whole transfer/search, incl. overlap, wrap and self-overwrite.", note="Longer runs (up to 65536 elements) only via the lemma + induction on the counter (paper step). Undocumented block-I/O flags not compared.", ref="§5 C09"),
  "C10": dict(text="2-safety without oracle: two symbolic CPUs with equal States and equal bus answers but every other CPU field (taken from the type) independently arbitrary take equal Steps, for all 1786 encodings; footprint obligation: no explored path of Step writes a package-level variable.", note="Goroutine interleavings are not executed; race-freedom between CPUs is argued from the footprint (disjoint object graphs, no shared writes). Pointer/map-typed hidden fields are covered by the 2-Step rebuild harness only for the pairs listed in bounds.", ref="§5 C10"),
  "C11": dict(text="Relational obligations for all 255 DD/FD second bytes and 256 DDCB/FDCB fourth bytes: Step_FD(swap S) == swap(Step_DD(S)) on state, HALT, memory and the access sequence; plus independence of the DD form from IY by a second 2-run obligation.", note="Assumes no data access hits the prefix byte at PC (the one byte where the two programs differ by construction).", ref="§5 C11"),
